@@ -86,47 +86,20 @@ struct Cursor {
     valid: bool,
     chain: bool,
     last_danger: u32,
-    last_lb: u32,
-    term_by_seek: bool,
 }
 
 /// Executes one program; `prog` gives the operations and their (clamped) targets.
-/// `avoid_bitset`: steer around the recorded finding "BitSetDocSet::advance after a seek past the end".
-/// `--unsteer f29,f31` switches the steering around the named recorded findings off (to test a repair)
-fn steer(a: &Args, schema: &Schema, q: &Value) -> Avoid {
-    let on = !a.flag("no-avoid");
-    let un = a.get("unsteer", "").to_lowercase();
-    let keep = |f: &str| on && !un.split(',').any(|x| x.trim() == f);
-    Avoid {
-        bitset: keep("f29") && qlib::has_bitset_leaf(schema, q),
-        inter_count: keep("f30") && qlib::may_be_intersection(q),
-        union_fill: keep("f31") && qlib::has_union(q),
-        union_danger: keep("f32") && qlib::has_union_anywhere(q),
-        union_member: keep("f33") && qlib::union_has_danger_member(q),
-    }
-}
-
-#[derive(Clone, Copy, Default)]
-struct Avoid {
-    bitset: bool,
-    union_fill: bool,
-    inter_count: bool,
-    union_danger: bool,
-    union_member: bool,
-}
-
-fn run_prog(sc: &mut Box<dyn Scorer>, prog: &[Value], scoring: bool, avoid: Avoid, seq: &[u32]) -> Vec<Value> {
-    let (avoid_bitset, avoid_union_fill) = (avoid.bitset, avoid.union_fill);
-    let mut score_tainted = false;
+/// Executes one program; `prog` gives the operations and their (clamped) targets.
+fn run_prog(sc: &mut Box<dyn Scorer>, prog: &[Value], scoring: bool) -> Vec<Value> {
     let mut out = vec![];
-    let mut cur = Cursor { valid: true, chain: false, last_danger: 0, last_lb: 0, term_by_seek: false };
+    let mut cur = Cursor { valid: true, chain: false, last_danger: 0 };
     for c in prog {
         let op = c["op"].as_str().unwrap().to_string();
         let arg = c.get("t").or_else(|| c.get("min")).and_then(|x| x.as_u64()).unwrap_or(0) as u32;
         let res = catch_unwind(AssertUnwindSafe(|| -> Option<Value> {
             let mut rec = match op.as_str() {
                 "advance" => {
-                    if !cur.valid || (avoid_bitset && cur.term_by_seek && sc.doc() == TERMINATED) {
+                    if !cur.valid {
                         return None;
                     }
                     let r = sc.advance();
@@ -153,17 +126,6 @@ fn run_prog(sc: &mut Box<dyn Scorer>, prog: &[Value], scoring: bool, avoid: Avoi
                         }
                         t = cur.last_danger + 1;
                     }
-                    // recorded finding: a union member that misses stays in the danger zone and is taken as a match when
-                    // the same or a later seek_danger succeeds through another member: no seek_danger on such scorers
-                    if avoid.union_member {
-                        let _ = seq;
-                        return None;
-                    }
-                    // recorded finding: BufferedUnionScorer::seek_danger with a target before its buffered window;
-                    // for scorers that may contain a union, continue a chain at or after the returned lower bound
-                    if avoid.union_danger && cur.chain && !cur.valid {
-                        t = t.max(cur.last_lb);
-                    }
                     let r = sc.seek_danger(t);
                     cur.chain = true;
                     cur.last_danger = t;
@@ -174,7 +136,6 @@ fn run_prog(sc: &mut Box<dyn Scorer>, prog: &[Value], scoring: bool, avoid: Avoi
                         }
                         SeekDangerResult::SeekLowerBound(lb) => {
                             cur.valid = false;
-                            cur.last_lb = lb.min(TERMINATED);
                             json!({"op":"seek_danger","t":t,"found":false,"lb":lb.min(TERMINATED)})
                         }
                     }
@@ -186,9 +147,6 @@ fn run_prog(sc: &mut Box<dyn Scorer>, prog: &[Value], scoring: bool, avoid: Avoi
                     let mut buf = [0u32; 64];
                     let n = sc.fill_buffer(&mut buf);
                     cur.chain = false;
-                    if avoid_union_fill {
-                        score_tainted = true;
-                    }
                     json!({"op":"fill_buffer","ret":buf[..n].to_vec()})
                 }
                 "fill_bitset_block" => {
@@ -211,7 +169,7 @@ fn run_prog(sc: &mut Box<dyn Scorer>, prog: &[Value], scoring: bool, avoid: Avoi
                     json!({"op":"fill_bitset_block","min":m,"mask":docs,"ret":r})
                 }
                 "count" => {
-                    if !cur.valid || avoid.inter_count {
+                    if !cur.valid {
                         return None;
                     }
                     let n = sc.count_including_deleted();
@@ -222,15 +180,8 @@ fn run_prog(sc: &mut Box<dyn Scorer>, prog: &[Value], scoring: bool, avoid: Avoi
             };
             if cur.valid {
                 let d = sc.doc();
-                if d == TERMINATED {
-                    if op != "advance" && op != "fill_buffer" && op != "count" {
-                        cur.term_by_seek = true;
-                    }
-                } else {
-                    cur.term_by_seek = false;
-                }
                 rec["doc_after"] = json!(d);
-                if scoring && d != TERMINATED && !score_tainted {
+                if scoring && d != TERMINATED {
                     // doc() names a document: reading its score is legal
                     match catch_unwind(AssertUnwindSafe(|| sc.score())) {
                         Ok(x) => rec["score"] = json!(bits(x)),
@@ -275,7 +226,7 @@ fn enumerate(w: &dyn Weight, sr: &tantivy::SegmentReader, scoring: bool) -> Resu
 }
 
 fn run_scorer_case(tracer: &Tracer, w: &dyn Weight, sr: &tantivy::SegmentReader, seg: usize, q: &Value, scoring: bool,
-                   progs: &[Vec<Value>], extra: &Value, avoid: Avoid) {
+                   progs: &[Vec<Value>], extra: &Value) {
     let n = qlib::leaves(q);
     match enumerate(w, sr, scoring) {
         Err(msg) => {
@@ -288,7 +239,7 @@ fn run_scorer_case(tracer: &Tracer, w: &dyn Weight, sr: &tantivy::SegmentReader,
                 let rec = match catch_unwind(AssertUnwindSafe(|| w.scorer(sr, 1.0))) {
                     Ok(Ok(mut sc)) => {
                         let mut rec = vec![json!({"op":"init","ret":sc.doc()})];
-                        rec.extend(run_prog(&mut sc, p, scoring, avoid, &seq));
+                        rec.extend(run_prog(&mut sc, p, scoring));
                         rec
                     }
                     Ok(Err(e)) => vec![json!({"op":"panic","in":"scorer","msg":e.to_string()})],
